@@ -1040,6 +1040,7 @@ func main() {
 				"MaxWndScale", "TCPMaxSACKBlocks",
 			}},
 			{"protocol/network/fragmentation", []string{"HighFragThreshold", "LowFragThreshold"}},
+			{"stack", []string{"linkAddrCacheSize", "ageLimit", "resolutionTimeout", "resolutionAttempts"}},
 		}
 		for _, c := range list {
 			p := load(c.pkg)
